@@ -23,7 +23,7 @@ import (
 func init() { register("C03", runC03S) }
 
 // c03sGenStream: emit the translator-validation lines
-var c03sGenStream = false
+var c03sGenStream = true
 
 type c03sOpc struct {
 	arch   string
